@@ -66,6 +66,25 @@ func Bytes(lo, hi int) *rapid.Generator[[]byte] {
 	return rapid.SliceOfN(rapid.Byte(), lo, hi)
 }
 
+// BoundaryBytes draws a byte string whose length is one of the given boundary lengths (each also minus and
+// plus one) and whose content is a cheap deterministic pattern of two drawn bytes: sizes at which buffers,
+// caps and limits change, which element-wise generation practically never reaches.
+func BoundaryBytes(bounds ...int) *rapid.Generator[[]byte] {
+	return rapid.Custom(func(t *rapid.T) []byte {
+		b := rapid.SampledFrom(bounds).Draw(t, "bound")
+		n := b + rapid.IntRange(-1, 1).Draw(t, "delta")
+		if n < 0 {
+			n = 0
+		}
+		a, m := rapid.Byte().Draw(t, "fill0"), rapid.Byte().Draw(t, "fillstep")
+		out := make([]byte, n)
+		for i := range out {
+			out[i] = a + byte(i)*m
+		}
+		return out
+	})
+}
+
 var mhCodes = []uint64{multihash.SHA2_256, multihash.SHA2_512, multihash.SHA1, multihash.IDENTITY, multihash.DBL_SHA2_256, multihash.SHA3_256, multihash.MD5}
 
 // Multihash draws a valid multihash of a mixed hash function.
